@@ -35,8 +35,9 @@ BUDGET = {
 HASH_KEYS_INFO = [b"pieces", b"files", b"file tree", b"piece length", b"name", b"length", b"meta version"]
 
 EXTRA_TOP = {
-    "a-note": b"info", "created by": b"info",   # the bytes '4:info' occur before the real info key
-    "created  by": b"someone", "creation date": 1234567890, "encoding": b"UTF-8", "x-bin": b"\xff\xfe\x00",
+    "a-note": b"info",                           # the bytes '4:info' occur before the real info key
+    "created by": b"torrentfile_v0.8.9",         # made by an older release of this very tool
+    "created  by": b"someone", "encoding": b"GBK", "creation date": 1234567890, "x-bin": b"\xff\xfe\x00",
     "nodes": [[b"host", 6881]], "zz": {b"b": 1, b"a": []}, "azureus_properties": {b"dht_backup_enable": 1},
 }
 EXTRA_INFO = {"x_cross_seed": b"abc", "unknown-int": -7, "bin": b"\x80\x81", "entropy": [1, [b"x"]], "ssl-cert": b""}
